@@ -36,7 +36,7 @@ META = {
 UNREG = ["X-Foo", "X-Bar", "X-Variant", "Foo", "Sec-CH-UA"]
 REGLIST = ["Accept", "Accept-Encoding", "Accept-Language", "Accept-Charset"]
 REGSINGLE = ["User-Agent", "Cookie", "Referer", "Origin", "From"]
-NOISE = ["X-Noise", "X-Other", "DNT", "X-Requested-With"]
+NOISE = ["X-Noise", "X-Other", "DNT", "X-Requested-With", "X-Foo-Bar", "X-Fo", "Foo-Bar", "X-Variant-2", "Accept-Encoding-2"]
 SEPS = [",", ", ", " ,", ",,", ", ,", "\t,", " , ", ",\t"]
 SPECIAL = ['"', "%", ",", ", ", ";", "=", ":", "/", "?", "&", "+", " ", "\t", "<", ">", "#", "\\", "'", "~", "*", "%22", "%25",
            "%2C", "%e9", "%E9", "%20", "\xe9", "\xff", "\x80", "\xc3\xa9", "a", "B", "0", "-", "_", ".", "q=0.5", "gzip", "x\"y"]
